@@ -22,7 +22,11 @@ func runRace(e *ev.Env) {
 	e.Cases("hammer", e.N(4, 16), func(c *ev.Case) {
 		r := c.R
 		cf := conf{Exp: 1, MaxBytes: []int{1000, 2000}[r.Intn(2)], VStore: r.Bool(), StoreHdr: r.Bool(), KeyGen: r.Intn(3),
-			Inv: r.Bool(), ExpGen: r.Chance(1, 3)}
+			Inv: r.Bool(), ExpGen: true}
+		varyExp := r.Chance(1, 3)
+		// ExpirationGenerator is always configured: the workers' responses live 1 s (the configured
+		// Expiration, or 1-2 s by header), the accounting monitor's fill responses ask for 30 s, so
+		// that in real time none of them can expire between being stored and being probed
 		cf.Polite = cf.VStore && cf.Inv // keep clear of the sequential invalidator-on-absent-entry defect
 		g := newRig(e, c, cf)
 		g.realtime = true
@@ -48,7 +52,7 @@ func runRace(e *ev.Env) {
 							q.CC = ccSpell(wr, "no-cache", false)
 						}
 					}
-					if cf.ExpGen && wr.Bool() {
+					if varyExp && wr.Bool() {
 						q.ExpSec = wr.Range(1, 2)
 					}
 					g.do(q)
